@@ -101,14 +101,14 @@ PROPS = {
         technique="Lean 4 proof over the run model + black-box second-run correspondence",
     ),
     "C08": dict(
-        modules=["Copia.Props.C08", "Copia.Props.C08b", "Copia.Props.C08c"], namespaces=["Copia.C08"], runner="bb", bb_module="bb_crash", timeout=3000,
+        modules=["Copia.Props.C08", "Copia.Props.C08b", "Copia.Props.C08c", "Copia.Props.C08d"], namespaces=["Copia.C08"], runner="bb", bb_module="bb_crash", timeout=3000,
         assumptions=_BI_ASSUME + ["'killed at any instant' is represented as 'before any libc call of the main thread' (strace injection); a kill inside one copy_file_range/write is covered by the staged file being opaque until renamed",
                                   "power loss is represented only by the ordering predicate fsync(staged data) → rename → record on the real trace, not by a page-cache model"],
         trusted_base=_BI_TB + ["strace (trace and signal injection)"],
         level_text="Kernel-checked WHOLE-RUN theorem `whole_run_prefix` over the micro-step model of a run (the plan's stage/sync/publish/unlink calls in plan order, then the archive's stage/sync/bak/publish), for every pair of trees, every archive and EVERY prefix length: "
                    "no staged file is ever renamed into place unsynced, every live path holds a complete content some path held when the run started, the record is the new one only if the whole run was executed and is no longer the old one only after every data step "
-                   "(so everything it describes is flushed and renamed into place on both sides); `complete_run_is_the_run`: under NoNameClash the crash model's complete run leaves at every path exactly what the run model (`bisync`, the apply loop) leaves; plus the per-copy and per-record lemmas. Tie (partial): the real run's mutating syscalls equal the model's step list (trace conformance) "
-                   "for 8 scenarios, and the real process is SIGKILLed before EVERY such call; post-kill trees/archive and crash recovery are checked.",
+                   "(so everything it describes is flushed and renamed into place on both sides); `complete_run_is_the_run`: under NoNameClash the crash model's complete run leaves at every path exactly what the run model (`bisync`, the apply loop) leaves; plus the per-copy and per-record lemmas; `recovery` / `recovery_loses_nothing`: for EVERY kill point k of EVERY run under NoNameClash, running bisync again on what is left (with the old record while the record is old, with ANY record otherwise) completes and leaves at every path on both sides exactly what the uninterrupted run leaves, so no version is lost in the sense of C02 (proved via the apply loop under a BENIGN name clash, Lemmas/Bisync13-15, Crash6-8; the proof exposed defect D16). Tie (partial): the real run's mutating syscalls equal the model's step list (trace conformance) "
+                   "for 9 scenarios, and the real process is SIGKILLed before EVERY such call; post-kill trees/archive and crash recovery are checked.",
         level_note="Partial: proof of the model + syscall-trace conformance + exhaustive kill points per scenario; intra-syscall preemption and real power loss are not exhibited.",
         technique="Lean 4 proof (invariant over every prefix of the step list) + strace trace conformance + exhaustive kill-point injection",
     ),
